@@ -59,6 +59,15 @@ def gen_case(rng: random.Random, tier: str):
             ops.append({"op": "parse_fault", "i": rng.randrange(6), "e": rng.choice(["EIO", "EINTR"])})
     if not any(o["op"] == "parse" for o in ops):
         ops.append({"op": "parse", "form": "call"})
+    # names: a chain of by-name aliases AX0 -> AX1 -> AX2 -> <parsed type> registered with add_type(); some parses go through
+    # cs.read(<alias>, stream), and the far end of the chain may be re-pointed (replace=True) between parses
+    aliases = rng.random() < 0.25
+    if aliases:
+        for o in ops:
+            if o["op"] == "parse" and rng.random() < 0.6:
+                o["form"], o["alias"] = "cs.read", rng.randrange(3)
+        for _ in range(rng.randint(0, 2)):
+            ops.insert(rng.randint(1, len(ops)), {"op": "retarget", "to": rng.choice(["uint16", "uint32", "self", "int64", "self"])})
     # what is parsed: usually the last structure; sometimes an enum/flag type, a scalar, or an array type used as a
     # top-level type (all of them accept the same call forms and input kinds)
     root_sel = None
@@ -73,7 +82,7 @@ def gen_case(rng: random.Random, tier: str):
             "root_sel": root_sel,
             "pre": rng.randint(0, 3) * unit if rng.random() < 0.3 else rng.randint(0, 40) // unit * unit,
             "gap": rng.randint(0, 24) // unit * unit, "suf": rng.randint(0, 24), "kind": rng.choice(["bytesio", "sim", "sim", "mmap", "buffered"]),
-            "ops": ops, "twin_seed": rng.getrandbits(32)}
+            "ops": ops, "twin_seed": rng.getrandbits(32), "aliases": aliases}
 
 
 def _values_only(o):
@@ -128,6 +137,11 @@ def run_case(case, stats):
         # they cannot disturb (or repair) any state the history under test leaves on the type objects
     except Exception:
         raise Discard("load_fail")
+    if case.get("aliases") and name is not None:
+        for c_ in (cs, cs2):
+            c_.add_type("AX2", name)
+            c_.add_type("AX1", "AX2")
+            c_.add_type("AX0", "AX1")
     if case["image"] is None:
         rng = random.Random(case["seed"])
 
@@ -191,10 +205,33 @@ def run_case(case, stats):
         elif k == "read":
             stream.read(op["n"])
             hist.append("read")
+        elif k == "retarget":
+            if case.get("aliases") and name is not None:
+                for c_ in (cs, cs2):
+                    c_.add_type("AX2", name if op["to"] == "self" else op["to"], replace=True)
+                stats.count("probe.alias_chain_end_replaced")
+            hist.append("retarget")
         elif k == "parse":
             p = stream.tell()
             if p % unit:
                 stats.count("probe.parse_skipped_unaligned_position")
+                continue
+            if op.get("alias") is not None and case.get("aliases") and name is not None:
+                # through cs.read(<alias>, stream): must be what parsing the type the alias resolves to NOW gives
+                an = f"AX{op['alias']}"
+                exp = _ref(cs2.resolve(an), image, p)
+                try:
+                    v = cs.read(an, stream)
+                    got = ("val", observe(v), stream.tell() - p)
+                except Exception as e:  # noqa: BLE001
+                    got = ("exc", type(e).__name__)
+                stats.count("evaluations")
+                stats.count("probe.parse_through_alias_chain")
+                stats.log(p, an, got)
+                if got != exp and not (case["kind"] == "mmap" and got == ("exc", "ValueError") and (exp[0] == "exc" or p + exp[2] > len(image))):
+                    raise Violation("input_kinds", "read_by_alias_name_differs",
+                                    f"cs.read({an!r}, stream) at p={p} after {hist}: got {got}, parsing the type that name resolves to gives {exp}", p=p)
+                hist.append("parse_ok" if got[0] == "val" else "parse_fail")
                 continue
             exp = _ref(root_ref, image, p)
             try:
